@@ -1,5 +1,6 @@
 import LalModel.Proof.GroupRtmp
 import LalModel.Proof.GroupFlv
+import LalModel.Proof.GroupRecord
 import LalModel.Props.C08
 import LalModel.Props.C11
 /-
@@ -135,6 +136,26 @@ theorem live_part_decodes_flv (l : List InMsg) (h : ∀ m ∈ l, LiveWF m) :
     simp [tagsOf, wrapAll, wrap, Ws.subWrite, tagWithoutSdf, List.flatMap, List.map_map, Function.comp_def]
   rw [e]
   simpa [List.map_map, Function.comp_def] using this
+
+/-- Every FLV recording, in any reachable state, is the 13-byte FLV header followed by the tags of ONE
+    CONTIGUOUS SLICE of the publish log — for the recording that is being written the slice reaches the
+    end of the log (nothing trails); a recording index not yet used holds nothing. By C11
+    (`file_roundtrip`) such a file is read back by an FLV parser as exactly those tags. -/
+theorem recording_contiguous (cfg : Cfg) (evs : List Ev) :
+    let s := run cfg evs
+    (∀ i, i < s.nextRecord → ∃ a b, a ≤ b ∧ b ≤ s.pubLog.length ∧
+        s.bytes .record i = Gen.flvHeader ++ rawTags (Group.slice s.pubLog a b) ∧
+        (s.recording = some i → b = s.pubLog.length)) ∧
+    (∀ i, i ≥ s.nextRecord → s.bytes .record i = []) := by
+  intro s
+  have h := rrun_inv cfg evs
+  refine ⟨?_, h.future⟩
+  intro i hi
+  by_cases hc : s.recording = some i
+  · obtain ⟨_, a, ha, hb⟩ := h.open_ i hc
+    exact ⟨a, s.pubLog.length, ha, Nat.le_refl _, hb, fun _ => rfl⟩
+  · obtain ⟨a, b, h1, h2, h3⟩ := h.closed i hi hc
+    exact ⟨a, b, h1, h2, h3, fun e => absurd e hc⟩
 
 /-- zero-length messages are not forwarded (and change nothing) -/
 theorem zero_len_dropped (s : St) (typ ts : Nat) : broadcast s { typ := typ, ts := ts, payload := [] } = s := by
